@@ -196,6 +196,21 @@ func (in *Interp) BinOp(op token.Token, x, y Val, t types.Type, xt types.Type) V
 	if xc && yc && cx.V != nil && cy.V != nil {
 		return constBinOp(op, cx, cy, t, xt)
 	}
+	// b == true, b != false are b; b == false, b != true are !b
+	if (op == token.EQL || op == token.NEQ) && (xc != yc) {
+		c, other := cx, y
+		if yc {
+			c, other = cy, x
+		}
+		if c.V != nil && c.V.Kind() == constant.Bool {
+			if _, isSym := other.(*Sym); isSym {
+				if constant.BoolVal(c.V) == (op == token.EQL) {
+					return other
+				}
+				return in.Not(other)
+			}
+		}
+	}
 	// nil comparisons
 	if op == token.EQL || op == token.NEQ {
 		if r, ok := in.eqVals(x, y); ok {
